@@ -209,6 +209,13 @@ func (pdb *pgDb) Get(ctx context.Context, key []byte) ([]byte, error) {
 			err = pdb.stopSingle(ctx)
 			return rr, err
 		}
+		// no row: either there is no translation, or fetching it failed
+		err = rs.Err()
+		rs.Close()
+		if err != nil {
+			pdb.Abort(ctx)
+			return nil, err
+		}
 	}
 
 	query := fmt.Sprintf("SELECT value FROM %s.kv_vise WHERE key = $1", pdb.schema)
@@ -219,8 +226,13 @@ func (pdb *pgDb) Get(ctx context.Context, key []byte) ([]byte, error) {
 	}
 
 	if !rs.Next() {
+		// a fetch that failed is not a key that does not exist
+		err = rs.Err()
 		rs.Close()
 		pdb.Abort(ctx)
+		if err != nil {
+			return nil, err
+		}
 		return nil, db.NewErrNotFound(key)
 	}
 
